@@ -108,6 +108,15 @@ CHECKS = {
         "weight lies in the directory-snapshot correspondence. Multi-command OVERWRITE chains are checked one command at a time.",
    technique="Coq proof (loop invariant over the match list; finite-map file system) + directory snapshot differential",
    ref="DESIGN.md 7 C06"),
+ "C17": dict(
+   text="Theorems (closed): C17_match_json_fields - the object of a match holds, under the documented keys, exactly the in-memory match (filename, matchNumber, offset/line/column as {start,end}, "
+        "value, variables nested for named loops) and `replacement` exactly when the match has one; C17_one_object_per_match. The model's compact and tab-indented renderers (Go's escaping rules) "
+        "are compared byte for byte with Json()/FormattedJson() on ASCII texts. Tie and validity: both renderings must parse with Python's json, be equal documents and decode to the in-memory "
+        "matches, for result lists {empty, one, many} x {find, replace} x {flat, nested} over texts with quotes, backslashes, control characters, <>&, non-ASCII and invalid UTF-8.",
+   note="PARTIAL: the round-trip theorem parse(compact j) = parse(indent j) = j for a verified JSON parser is not proved; validity of the rendering is decided by the correspondence (Python json). "
+        "encoding/json itself (invalid UTF-8 -> U+FFFD, HTML escaping) is modelled, not verified. Repaired: 03d01b5 (Matches.Json panicked on every call).",
+   technique="Coq proof (document model: fields of the rendered object) + differential validation of both renderings against an independent JSON implementation",
+   ref="DESIGN.md 7 C17"),
  "C18": dict(
    text="Theorems (closed): C18_cli_table - on the FULL cross product of -com/-src x -files x -json x -formatted-json x -json-file x -formatted-json-file x mode {unset,NEW,NOTHING,OVERWRITE,bogus} "
         "x -no-output (enumeration proved complete: C18_cross_product_complete) the decision function of main.go rejects exactly the undocumented invocations and otherwise runs with the given "
